@@ -2,6 +2,8 @@ import SpoxModel.Model.MLInfer
 import SpoxModel.Model.RtShape
 import SpoxModel.Model.ScanRun
 import SpoxModel.Lemmas.MLShape
+import SpoxModel.Model.IfInfer
+import SpoxModel.Lemmas.IfJoin
 import SpoxModel.Generated.MLOverrides
 /-!
 # C06 — reported types are sound: runtime values always conform to them
@@ -511,6 +513,101 @@ theorem refines_imp_accepted : ∀ (as ds : List Dim),
     simp only [compatDims, Bool.and_eq_true]
     refine ⟨?_, refines_imp_accepted as ds hall.2 (by simpa using hl)⟩
     cases d <;> cases a <;> simp_all [refinesDim, compatDim]
+
+/-! ## If (round 10) — the reported result types are the JOIN of the two branches' result types
+
+`inferIf` (Model/IfInfer.lean) is what `op.if_` reports as a function of the result types of its two
+branches (spox's dummy typed subgraphs + ONNX's `If` rule + `unk__` stripping; compared with the real
+constructor of every opset module on every run). -/
+
+/-- **Soundness of the types reported for `If`**: whichever branch the condition selects, for any number
+    of results, any ranks, any sizes of unknown dims — if the values of the branch that RUNS conform to
+    the types of that branch's result Vars, the results of the `If` conform to the reported types.
+    (Nothing is assumed about the branch that does not run.) -/
+theorem if_sound (T E : List ITy) (outs : List ITy) (c : Bool) (vt ve : List RtVal)
+    (h : inferIf T E = .ok outs)
+    (ht : c = true → conformsAll vt T = true) (he : c = false → conformsAll ve E = true) :
+    conformsAll (ifRun c vt ve) outs = true := by
+  unfold inferIf at h
+  cases hT : allTyped T with
+  | none => simp [hT] at h
+  | some t =>
+    cases hE : allTyped E with
+    | none => simp [hT, hE] at h
+    | some e =>
+      simp only [hT, hE] at h
+      split at h
+      · simp at h
+      · cases hj : joinAll t e with
+        | none => simp [hj] at h
+        | some js =>
+          simp only [hj, Res.ok.injEq] at h
+          subst h
+          have hTt : T = t.map some := allTyped_eq_map hT
+          have hEe : E = e.map some := allTyped_eq_map hE
+          have hc := conformsAll_joinAll
+          cases c with
+          | true => exact (hc vt t e js hj).1 (hTt ▸ ht rfl)
+          | false => exact (hc ve t e js hj).2 (hEe ▸ he rfl)
+
+/-- The reported type is an upper bound of both branch types in the `refines` order
+    (`refines_sound`: every value of the finer type is a value of the coarser one) … -/
+theorem if_join_upper (t e j : Ty) (h : joinTy t e = some j) : refines t j = true ∧ refines e j = true :=
+  joinTy_upper t e j h
+
+/-- … and the LEAST one: every type that is sound for both branches is refined by the reported type and
+    the join exists (no spurious `InferenceError`, nothing forgotten that both branches guarantee —
+    the converse of `if_sound` at the level of types). -/
+theorem if_join_least (t e u : Ty) (ht : refines t u = true) (he : refines e u = true) :
+    ∃ j, joinTy t e = some j ∧ refines j u = true :=
+  joinTy_least t e u ht he
+
+/-- The reported list has one type per result of the branches. -/
+theorem if_arity (T E outs : List ITy) (h : inferIf T E = .ok outs) :
+    outs.length = T.length ∧ outs.length = E.length ∧ outs ≠ [] := by
+  unfold inferIf at h
+  cases hT : allTyped T with
+  | none => simp [hT] at h
+  | some t =>
+    cases hE : allTyped E with
+    | none => simp [hT, hE] at h
+    | some e =>
+      simp only [hT, hE] at h
+      split at h
+      · simp at h
+      · rename_i hne
+        cases hj : joinAll t e with
+        | none => simp [hj] at h
+        | some js =>
+          simp only [hj, Res.ok.injEq] at h
+          subst h
+          have hl := joinAll_length t e js hj
+          rw [allTyped_eq_map hT, allTyped_eq_map hE]
+          simp only [List.length_map]
+          refine ⟨hl.1, hl.2, ?_⟩
+          intro hnil
+          have : js = [] := by simpa using hnil
+          subst this
+          have h1 : t = [] := by simpa using hl.1.symm
+          have h2 : e = [] := by simpa using hl.2.symm
+          subst h1; subst h2
+          simp at hne
+
+/-- Why a dim that only ONE branch reports as a constant must be forgotten (and what a mutant that keeps
+    the then-branch's dims gets wrong): the else-branch value `(5,)` does not conform to `f32[2]`. -/
+theorem if_keep_then_dims_counterexample :
+    ∃ (T E : List ITy) (ve : List RtVal), conformsAll ve E = true ∧
+      inferIf T E = .ok [tensor .f32 [.anon]] ∧ conformsAll (ifRun false [] ve) T = false :=
+  ⟨[tensor .f32 [.const 2]], [tensor .f32 [.named "N"]], [⟨.f32, [5]⟩], by decide, by decide, by decide⟩
+
+example : inferIf [tensor .f32 [.const 2, .named "N"], tensor .i64 [.const 1]]
+    [tensor .f32 [.const 3, .named "N"], some ⟨.i64, none⟩]
+    = .ok [tensor .f32 [.anon, .named "N"], some ⟨.i64, none⟩] := by decide
+example : inferIf [tensor .f32 [.const 2]] [tensor .f32 [.const 2, .const 3]] = .ok [some ⟨.f32, none⟩] := by decide
+example : inferIf [tensor .f32 [.const 2]] [tensor .i64 [.const 2]] = .err .inference := by decide
+example : inferIf [none] [tensor .i64 [.const 2]] = .err .typeErr := by decide
+example : inferIf [] [] = .err .inference := by decide
+example : conformsAll (ifRun false [⟨.f32, [2, 4]⟩] [⟨.f32, [3, 4]⟩]) [tensor .f32 [.anon, .named "N"]] = true := by decide
 
 /-! ## Loop -/
 
